@@ -127,6 +127,22 @@ Theorem C03_step :
 Proof. exact step_J. Qed.
 Print Assumptions C03_step.
 
+(* the same with the weaker premise: every buffer holds the packet header and context (offb_run)
+   instead of "the position is inside the packet at platform closes" (inb_run) *)
+From BT.Tracer Require Import HistoryBounds.
+Theorem C03_history_buffers :
+  forall d user cs_size, wf_d d user cs_size ->
+  forall buf oracle h,
+    fits cs_size (8 * buf) -> or_ok cs_size oracle -> Forall (call_ok d) h ->
+    let w0 := mk_w (init_ctx buf) oracle 0%Z [] false user in
+    let w1 := step d w0 COpen in
+    c_open (w_c w1) = true -> offb w1 -> offb_run d w1 h ->
+    let w := run d buf user oracle (COpen :: h) in
+    w_err w = false -> c_open (w_c w) = false ->
+    exists ds, outs d w1 h ds /\ read_all d (pkts (obs (w_log w))) = Some (List.concat ds).
+Proof. exact history_records_offb. Qed.
+Print Assumptions C03_history_buffers.
+
 From BT.Tracer Require Import HistoryExample Examples.
 (* non-vacuity: the premises hold for a data stream type with every packet feature and a clock and a
    history with two packet switches, a call while disabled, a platform close and the finalisation *)
